@@ -125,6 +125,7 @@ FIXED_PROGRAMS = [
     'def f22 { salt: "${uid}%(uid)s{uid}$uid" splitters: uid return "A" weighted 1, "B" weighted 1, "C" weighted 1 }',
     'def f24 { salt: "a\tb\x0cc\u2028d\x85e\x1cf\rg  h" splitters: uid if x == "p\tq" { return "tab" weighted 1 } else if x == "p    q" { return "spaces" weighted 1 } else if x == "p\x0bq\u2029r" { return "vt" weighted 1 } else { return "A" weighted 1, "B" weighted 1 } }',
     'def f25 { splitters: uid if code in "FR,DE,IT" { return "eu" weighted 1 } else if code not in "xyz" { return "notxyz" weighted 1 } else if "a" in tags { return "tagged" weighted 1 } else { return "rest" weighted 1 } }',
+    'def f26 { splitters: type, match, _ if case == 1 and _x == 2 or soft in (type, match) { return "A" weighted 1, "B" weighted 1 } else if print == 3 and len != 4 and id == "x" { return "builtin-names" weighted 1 } else { return "C" weighted 1 } }',
     'def f23 { salt: "2024" splitters: uid if z == "02134" { return "zip" weighted 1 } else if z == "1e5" { return "exp" weighted 1 } else if z == " 12 " { return "pad" weighted 1 } else if z == "inf" { return "inf" weighted 1 } else { return "A" weighted 1, "B" weighted 1 } }',
 ]
 
@@ -133,6 +134,8 @@ def big_programs():
     """programs at the size bounds C07 names: 64 groups, else-if chains of 60, nesting 12, boolean chains of 60"""
     out = []
     out.append("def big_groups { splitters: uid return " + ", ".join('"g%d" weighted %d' % (i, 1 + i % 3) for i in range(64)) + " }")
+    for n in (7, 8, 9, 10, 16, 17, 25, 31, 33):       # group counts around typical wrapping widths
+        out.append("def big_groups%d { splitters: uid return " % n + ", ".join('"g%d" weighted %d' % (i, 1 + i % 4) for i in range(n)) + " }")
     chain = 'if x == 0 { return "c0" weighted 1 }' + "".join(' else if x == %d { return "c%d" weighted 1, "d%d" weighted 1 }' % (i, i, i) for i in range(1, 60)) + ' else { return "rest" weighted 1 }'
     out.append("def big_chain { splitters: uid " + chain + " }")
     nest = 'return "leaf" weighted 1'
@@ -306,10 +309,11 @@ def pipeline_diff(req):
             e3 = dict(reversed(list(env.items())))
             e3["zz_unrelated_extra"] = rnd.choice(SPECIAL_VALUES + [10 ** 5000, -(10 ** 4400), b"bytes", (1, "t"), [1, 2], {"k": 1}, 1e308 * 10, float("nan")])
             for f in list(env):
-                if "_" in f.strip("_"):
-                    e3[f.replace("_", "-")] = "dashed-twin-of-%s" % f        # a key that is NOT a field, however similar it looks
-                e3[f.upper() if f != f.upper() else f.lower()] = "case-twin"
-                e3[f + "_"] = "suffixed-twin"
+                twins = {f.replace("_", "-") if "_" in f.strip("_") else None: "dashed-twin-of-%s" % f,      # keys that are NOT fields, however similar they look
+                         (f.upper() if f != f.upper() else f.lower()): "case-twin", f + "_": "suffixed-twin"}
+                for tk, tv in twins.items():
+                    if tk is not None and tk not in env:
+                        e3[tk] = tv
             got3 = call_outcome(ev, e3)
             if (got3[0], got3[1] if got3[0] == "raise" else dec_value(got3[1])) != (got[0], got[1] if got[0] == "raise" else dec_value(got[1])):
                 fail("irrelevance", dict(case, what="extra keyword argument / argument order changed the outcome", observed2=enc(list(got3)) if got3[0] == "raise" else ["group", enc(dec_value(got3[1]))]))
